@@ -314,7 +314,7 @@ func runC20(c *Ctx) {
 		ch.n = w.Range(5, 150)
 		// any number is a legal limit, not only the ones an allocator's size classes happen to hit exactly
 		ch.maxSlots = w.Pick(32, 2, 4, 8, w.Range(1, 60), w.Range(1, 60))
-		ch.maxBytes = w.Pick(4096, 256, 1024, 1<<16)
+		ch.maxBytes = w.Pick(4096, 256, 1024, 1<<16, w.Range(64, 6000), w.Range(64, 6000))
 		ch.buf = sonic.NewByteBuffer()
 		if w.Chance(1, 4) {
 			ch.off = sonic.NewSlotOffsetter(ch.maxBytes)
